@@ -8,50 +8,12 @@
        re-encoding (they are not, and are not claimed to be, invariant under insertion).
    Axiom-free.                                                                                          *)
 From Coq Require Import Lia List Bool.
-From Tevec Require Import Base.Prelude Base.Num Model.Agg Model.NullView Proofs.AggGeneric.
+From Tevec Require Import Base.Prelude Base.Num Model.Agg Model.NullView Proofs.AggGeneric Proofs.ViewBase.
 Import ListNotations.
 Set Implicit Arguments.
 
-(* ---- generic list facts ----------------------------------------------------------------------------- *)
-Lemma fold_left_rel {St X1 X2} (R : X1 -> X2 -> Prop) (f1 : St -> X1 -> St) (f2 : St -> X2 -> St) :
-  (forall s a b, R a b -> f1 s a = f2 s b) ->
-  forall l1 l2, Forall2 R l1 l2 -> forall s, fold_left f1 l1 s = fold_left f2 l2 s.
-Proof.
-  intros Hf l1 l2 HF. induction HF as [|a b r1 r2 Hab _ IH]; intros s; [reflexivity|].
-  cbn [fold_left]. rewrite (Hf s a b Hab). apply IH.
-Qed.
-
-Lemma hd_error_map {X Y} (f : X -> Y) (l : list X) : hd_error (map f l) = option_map f (hd_error l).
-Proof. destruct l; reflexivity. Qed.
-
-Lemma Forall2_rev {X Y} (R : X -> Y -> Prop) l1 l2 : Forall2 R l1 l2 -> Forall2 R (rev l1) (rev l2).
-Proof.
-  induction 1 as [|a b r1 r2 Hab _ IH]; [constructor|]. cbn [rev].
-  apply Forall2_app; [exact IH|repeat constructor; exact Hab].
-Qed.
-
-Lemma Forall2_combine {X1 X2 Y1 Y2} (R : X1 -> X2 -> Prop) (Q : Y1 -> Y2 -> Prop) xs1 xs2 ys1 ys2 :
-  Forall2 R xs1 xs2 -> Forall2 Q ys1 ys2 ->
-  Forall2 (fun p q => R (fst p) (fst q) /\ Q (snd p) (snd q)) (combine xs1 ys1) (combine xs2 ys2).
-Proof.
-  intros HX. revert ys1 ys2. induction HX as [|a b r1 r2 Hab _ IH]; intros ys1 ys2 HY; [constructor|].
-  destruct HY as [|c d s1 s2 Hcd HY]; [constructor|]. cbn [combine]. constructor; [split; assumption|].
-  apply IH. exact HY.
-Qed.
-
-(* ---- the option view determines the predicates and the unwrapped value --------------------------------- *)
 Section View.
   Context {A T1 T2 : Type} (D1 : IsNone T1 A) (D2 : IsNone T2 A).
-
-  Lemma sv_is_none a b : same_view D1 D2 a b -> is_none a = is_none b.
-  Proof. unfold same_view, to_opt. destruct (is_none a), (is_none b); intros E; congruence. Qed.
-  Lemma sv_not_none a b : same_view D1 D2 a b -> not_none a = not_none b.
-  Proof. intros E. unfold not_none. rewrite (sv_is_none E). reflexivity. Qed.
-  Lemma sv_unwrap a b : same_view D1 D2 a b -> not_none b = true -> unwrap a = unwrap b.
-  Proof.
-    intros E. pose proof (sv_is_none E) as Hn. unfold not_none. unfold same_view, to_opt in E.
-    rewrite Hn in E. destruct (is_none b); [discriminate|]. intros _. congruence.
-  Qed.
 
   Lemma vals_same_view xs1 xs2 : SameView D1 D2 xs1 xs2 -> vals xs1 = vals xs2.
   Proof.
